@@ -262,7 +262,7 @@ func (g *gen) printfFunc() {
 		g.sc = &scope{}
 		defer func() { g.sc = save }()
 		var lines []string
-		for i, n := 0, g.intn(2, 8, "ncalls"); i < n; i++ {
+		for i, n := 0, g.intn(3, 10, "ncalls"); i < n; i++ {
 			lines = append(lines, g.printfCall(1))
 		}
 		return g.doc(name) + "func " + name + "(" + printfParams + ") {\n\t" + strings.Join(lines, "\n\t") + "\n}"
